@@ -41,36 +41,131 @@ fn live() -> isize {
     LIVE.load(std::sync::atomic::Ordering::Relaxed)
 }
 
-// ---------------------------------------------------------------- watchdog (C09: a call must return)
-// every worker announces the case it is running; a monitor thread ends the process with status 3 and a `HANG <case>` line
-// on stderr when one case runs longer than the deadline (VERIF_CASE_DEADLINE seconds, default 60).  The orchestration then
-// reports that case and re-runs the others without it.  Workers are NOT replaced per case: histories per thread stay as they are.
-static WATCH: std::sync::Mutex<Vec<(std::thread::ThreadId, std::time::Instant, String)>> = std::sync::Mutex::new(Vec::new());
-fn watched<T>(line: &str, f: impl FnOnce() -> T) -> T {
-    let me = std::thread::current().id();
-    WATCH.lock().unwrap().push((me, std::time::Instant::now(), line.to_string()));
-    let r = f();
-    WATCH.lock().unwrap().retain(|(t, _, _)| *t != me);
-    r
+// ---------------------------------------------------------------- worker pool with a watchdog (C09: a call must return)
+// The cases of a file are handed out one by one to `threads` long-lived workers (so histories per thread stay as they are).
+// A monitor declares a case hung when it runs longer than VERIF_CASE_DEADLINE seconds (default 60, 10 after the first
+// hang): its record becomes `CASE ..` / `RESULT hang ..` / `END`, the stuck worker is abandoned (it cannot be killed) and
+// a fresh worker takes over the remaining cases.  After MAX_STUCK abandoned workers the remaining cases are skipped
+// (`RESULT skipped`), so a change that makes most calls diverge still ends the run with a verdict.
+fn deadline_secs() -> u64 {
+    std::env::var("VERIF_CASE_DEADLINE").ok().and_then(|s| s.parse::<u64>().ok()).unwrap_or(60)
 }
-fn start_watchdog() {
-    let limit = std::env::var("VERIF_CASE_DEADLINE").ok().and_then(|s| s.parse::<u64>().ok()).unwrap_or(60);
-    std::thread::spawn(move || loop {
-        std::thread::sleep(std::time::Duration::from_millis(500));
-        let hung: Vec<String> = WATCH
+const MAX_STUCK: usize = 48;
+fn run_pool(lines: Vec<String>, threads: usize, f: fn(&str) -> Vec<String>) -> Vec<Vec<String>> {
+    use std::sync::atomic::{AtomicUsize, Ordering};
+    use std::sync::{Arc, Mutex};
+    let n = lines.len();
+    let lines = Arc::new(lines);
+    let next = Arc::new(AtomicUsize::new(0));
+    let results: Arc<Mutex<Vec<Option<Vec<String>>>>> = Arc::new(Mutex::new(vec![None; n]));
+    // worker id -> (case index, start)
+    let running: Arc<Mutex<HashMap<usize, (usize, std::time::Instant)>>> = Arc::new(Mutex::new(HashMap::new()));
+    let spawn = |id: usize| {
+        let (lines, next, results, running) = (lines.clone(), next.clone(), results.clone(), running.clone());
+        std::thread::Builder::new()
+            .stack_size(256 << 20)
+            .spawn(move || loop {
+                let i = next.fetch_add(1, Ordering::SeqCst);
+                if i >= lines.len() {
+                    break;
+                }
+                running.lock().unwrap().insert(id, (i, std::time::Instant::now()));
+                let r = f(&lines[i]);
+                let mut g = running.lock().unwrap();
+                if matches!(g.get(&id), Some((j, _)) if *j == i) {
+                    g.remove(&id);
+                    drop(g);
+                    results.lock().unwrap()[i] = Some(r);
+                } else {
+                    break; // declared hung meanwhile: the record is already written, this worker was replaced
+                }
+            })
+            .unwrap();
+    };
+    let mut ids = 0;
+    for _ in 0..threads.max(1).min(n.max(1)) {
+        spawn(ids);
+        ids += 1;
+    }
+    let mut stuck = 0usize;
+    let mut limit = deadline_secs();
+    loop {
+        std::thread::sleep(std::time::Duration::from_millis(20));
+        if results.lock().unwrap().iter().all(|r| r.is_some()) {
+            break;
+        }
+        let hung: Vec<(usize, usize)> = running
             .lock()
             .unwrap()
             .iter()
-            .filter(|(_, t, _)| t.elapsed().as_secs() >= limit)
-            .map(|(_, _, l)| l.clone())
+            .filter(|(_, (_, t))| t.elapsed().as_secs() >= limit)
+            .map(|(id, (i, _))| (*id, *i))
             .collect();
-        if !hung.is_empty() {
-            for l in hung {
-                eprintln!("HANG {}", l);
+        for (id, i) in hung {
+            running.lock().unwrap().remove(&id);
+            results.lock().unwrap()[i] = Some(vec![
+                format!("CASE {}", lines[i]),
+                format!("RESULT hang the call did not return within {} s", limit),
+                "END".to_string(),
+            ]);
+            stuck += 1;
+            limit = limit.min(10);
+            if stuck < MAX_STUCK {
+                spawn(ids);
+                ids += 1;
             }
-            std::process::exit(3);
+        }
+        if stuck >= MAX_STUCK {
+            // give up on what nobody has started or finished
+            next.store(n, Ordering::SeqCst);
+            let run_now: Vec<usize> = running.lock().unwrap().values().map(|(i, _)| *i).collect();
+            let mut res = results.lock().unwrap();
+            for i in 0..n {
+                if res[i].is_none() && !run_now.contains(&i) {
+                    res[i] = Some(vec![format!("CASE {}", lines[i]), "RESULT skipped too many calls did not return".to_string(), "END".to_string()]);
+                }
+            }
+        }
+    }
+    let mut g = results.lock().unwrap();
+    g.iter_mut().map(|r| r.take().unwrap()).collect()
+}
+fn read_lines(path: &str) -> Vec<String> {
+    std::io::BufReader::new(std::fs::File::open(path).unwrap())
+        .lines()
+        .map(|l| l.unwrap())
+        .filter(|l| !l.trim().is_empty() && !l.starts_with('#'))
+        .collect()
+}
+fn print_all(results: Vec<Vec<String>>) {
+    let stdout = std::io::stdout();
+    let mut w = std::io::BufWriter::new(stdout.lock());
+    for r in results {
+        for l in r {
+            writeln!(w, "{}", l).unwrap();
+        }
+    }
+    w.flush().unwrap();
+    // abandoned workers may still be spinning
+    std::process::exit(0);
+}
+// single calls outside the pool (child processes of `isolated`, deep runs): end the process when the call does not return
+fn watched<T>(line: &str, f: impl FnOnce() -> T) -> T {
+    let done = std::sync::Arc::new(std::sync::atomic::AtomicBool::new(false));
+    let (d2, l2, limit) = (done.clone(), line.to_string(), deadline_secs());
+    std::thread::spawn(move || {
+        let t = std::time::Instant::now();
+        while !d2.load(std::sync::atomic::Ordering::Relaxed) {
+            std::thread::sleep(std::time::Duration::from_millis(200));
+            if t.elapsed().as_secs() >= limit {
+                println!("CASE {}\nRESULT hang the call did not return within {} s\nEND", l2, limit);
+                std::process::exit(0);
+            }
         }
     });
+    let r = f();
+    done.store(true, std::sync::atomic::Ordering::Relaxed);
+    r
 }
 
 fn hex(b: &[u8]) -> String {
@@ -205,38 +300,7 @@ fn trace_case(line: &str) -> Vec<String> {
 }
 
 fn cmd_trace(path: &str, threads: usize) {
-    let lines: Vec<String> = std::io::BufReader::new(std::fs::File::open(path).unwrap())
-        .lines()
-        .map(|l| l.unwrap())
-        .filter(|l| !l.trim().is_empty() && !l.starts_with('#'))
-        .collect();
-    let n = lines.len();
-    let chunk = n.div_ceil(threads.max(1)).max(1);
-    let results: Vec<Vec<String>> = std::thread::scope(|s| {
-        let hs: Vec<_> = lines
-            .chunks(chunk)
-            .map(|c| {
-                std::thread::Builder::new()
-                    .stack_size(256 << 20)
-                    .spawn_scoped(s, move || {
-                        let mut v = Vec::new();
-                        for l in c {
-                            v.extend(watched(l, || trace_case(l)));
-                        }
-                        v
-                    })
-                    .unwrap()
-            })
-            .collect();
-        hs.into_iter().map(|h| h.join().unwrap()).collect()
-    });
-    let stdout = std::io::stdout();
-    let mut w = std::io::BufWriter::new(stdout.lock());
-    for r in results {
-        for l in r {
-            writeln!(w, "{}", l).unwrap();
-        }
-    }
+    print_all(run_pool(read_lines(path), threads, trace_case));
 }
 
 // ---------------------------------------------------------------- S3/S4: direct calls
@@ -442,40 +506,13 @@ fn hist_case(line: &str) -> Vec<String> {
 }
 
 /// results only (no trace recording): CASE / RESULT / END per case, on `threads` threads, in the given order
+fn result_case(l: &str) -> Vec<String> {
+    let m = kv(l);
+    let mut g = mk_generator(&m);
+    vec![format!("CASE {}", l), run_src(&mut g, &m["src"]), "END".to_string()]
+}
 fn cmd_results(path: &str, threads: usize) {
-    let lines: Vec<String> = std::io::BufReader::new(std::fs::File::open(path).unwrap())
-        .lines()
-        .map(|l| l.unwrap())
-        .filter(|l| !l.trim().is_empty() && !l.starts_with('#'))
-        .collect();
-    let chunk = lines.len().div_ceil(threads.max(1)).max(1);
-    let results: Vec<Vec<String>> = std::thread::scope(|s| {
-        let hs: Vec<_> = lines
-            .chunks(chunk)
-            .map(|c| {
-                std::thread::Builder::new()
-                    .stack_size(256 << 20)
-                    .spawn_scoped(s, move || {
-                        c.iter()
-                            .map(|l| {
-                                let m = kv(l);
-                                let mut g = mk_generator(&m);
-                                format!("CASE {}\n{}\nEND", l, watched(l, || run_src(&mut g, &m["src"])))
-                            })
-                            .collect::<Vec<String>>()
-                    })
-                    .unwrap()
-            })
-            .collect();
-        hs.into_iter().map(|h| h.join().unwrap()).collect()
-    });
-    let stdout = std::io::stdout();
-    let mut w = std::io::BufWriter::new(stdout.lock());
-    for r in results {
-        for l in r {
-            writeln!(w, "{}", l).unwrap();
-        }
-    }
+    print_all(run_pool(read_lines(path), threads, result_case));
 }
 
 /// every case in a process of its own (this binary re-executed with `one <case line>`): no earlier call, no other
@@ -739,17 +776,8 @@ fn leak_case(line: &str) -> Vec<String> {
 }
 
 fn cmd_lines(path: &str, f: fn(&str) -> Vec<String>) {
-    let stdout = std::io::stdout();
-    let mut w = std::io::BufWriter::new(stdout.lock());
-    for l in std::io::BufReader::new(std::fs::File::open(path).unwrap()).lines() {
-        let l = l.unwrap();
-        if l.trim().is_empty() || l.starts_with('#') {
-            continue;
-        }
-        for o in watched(&l, || f(&l)) {
-            writeln!(w, "{}", o).unwrap();
-        }
-    }
+    // one worker: these modes are sequential by nature (the counting allocator of `leak` is process-wide)
+    print_all(run_pool(read_lines(path), 1, f));
 }
 
 /// first n 32-bit words of ChaCha8Rng::seed_from_u64(seed)
@@ -762,7 +790,6 @@ fn cmd_words(seed: u64, n: usize) {
 
 fn main() {
     std::panic::set_hook(Box::new(|_| {}));
-    start_watchdog();
     let a: Vec<String> = std::env::args().collect();
     match a.get(1).map(|s| s.as_str()) {
         Some("trace") => cmd_trace(&a[2], a.get(3).map(|s| s.parse().unwrap()).unwrap_or(16)),
